@@ -1179,7 +1179,13 @@ class PSBTIn:
                     raise ValueError("too many pubkeys in p2wpkh or p2sh-p2wpkh")
                 elif len(self.named_pubs) == 1:
                     named_pub = list(self.named_pubs.values())[0]
-                    if script_pubkey.commands[1] != named_pub.hash160():
+                    # the hash160 of the key is in the ScriptPubKey for p2wpkh
+                    # and in the RedeemScript for p2sh-p2wpkh
+                    if script_pubkey.is_p2wpkh():
+                        h160 = script_pubkey.commands[1]
+                    else:
+                        h160 = self.redeem_script.commands[1]
+                    if h160 != named_pub.hash160():
                         raise ValueError(
                             "pubkey {} does not match the hash160".format(
                                 named_pub.sec().hex()
